@@ -8,7 +8,7 @@ tree:  ('S', type|None, name|None, [(attr, val), ...])   val: None | scalar | ('
        ('T', ...) | ('M', [(key, val), ...]) | tree | ('W', tree)
 """
 from . import dtspec
-from ..gen import WRAP
+from ..gen import WRAP, WRAP2
 
 
 class Reject(Exception):
@@ -37,6 +37,8 @@ def norm_key(keytype, key, lineno=None):
 def convert(dt, value, lineno=None):
     if dt == WRAP:
         return ('W', value)
+    if dt == WRAP2:
+        return ('W2', value)
     try:
         v = dtspec.TABLE[dt](value)
     except dtspec.Bad:
@@ -279,6 +281,8 @@ class State:
         tree = ('S', self.typename, self.secname, out)
         if self.cont.get('datatype') == WRAP:
             tree = ('W', tree)
+        elif self.cont.get('datatype') == WRAP2:
+            tree = ('W2', tree)
         return tree
 
 
